@@ -1,7 +1,7 @@
 """C18 -- stable row ids are stable, unique and below next_row_id."""
 from checks import table_common as T
 
-FAMILIES = [{'name': 'rowids', 'ids': [1, 2, 3, 4], 'vals': [5], 'maxv': 8, 'maxops': 3, 'maxops_thorough': 4, 'stable': [True], 'opkinds': ['append', 'update', 'upsert', 'delete', 'compact', 'restore', 'checkout']}]
+FAMILIES = [{'name': 'rowids', 'ids': [1, 2, 3, 4], 'vals': [5], 'maxv': 8, 'maxops': 3, 'maxops_thorough': 4, 'stable': [True], 'opkinds': ['append', 'update', 'upsert', 'colupdate', 'delete', 'compact', 'restore', 'checkout']}]
 
 
 def run(prop, tier, replay):
